@@ -2,7 +2,7 @@
 import itertools
 from common import args, Report, guarded
 
-from krrood.entity_query_language.entity import entity, let
+from krrood.entity_query_language.entity import entity, let, set_of
 from krrood.entity_query_language.quantify_entity import an, the
 from krrood.entity_query_language.result_quantification_constraint import Exactly, AtLeast, AtMost, Range
 from krrood.entity_query_language import failures as F
@@ -69,6 +69,29 @@ for n in range(N + 1):
     rep.case(("the", n))
     if not ok:
         rep.fail("the", f"the() with n={n}: {st} {r!r}", {"n": n})
+# a quantifier used as an operand of an enclosing query keeps its meaning: the(...) with n = 0 / >1 solutions fails the same way
+for n in range(N + 1):
+    def nested(n=n):
+        inner = let(int, list(range(1, n + 1)))
+        the_one = the(entity(inner))
+        outer = let(int, [1, 2, 3])
+        return list(an(entity(outer, outer == the_one)).evaluate())
+    st, r = guarded(nested)
+    ok = (st == "ok" and r == [1]) if n == 1 else (st == "exc" and type(r) is (F.NoSolutionFound if n == 0 else F.MultipleSolutionFound))
+    rep.case(("the-nested", n))
+    if not ok:
+        rep.fail("the::nested", f"the() with n={n} solutions as an operand of an enclosing query: {st} {r!r}", {"n": n, "nested": True})
+    # ... and when it depends on a variable of the enclosing query (evaluated once per outer binding)
+    def correlated(n=n):
+        outer = let(int, [1])
+        inner = let(int, [1] * 0 + list(range(1, n + 1)))
+        the_one = the(entity(inner, inner >= outer))
+        return list(an(set_of([outer, the_one])).evaluate())
+    st, r = guarded(correlated)
+    ok = (st == "ok" and len(r) == 1) if n == 1 else (st == "exc" and type(r) is (F.NoSolutionFound if n == 0 else F.MultipleSolutionFound))
+    rep.case(("the-correlated", n))
+    if not ok:
+        rep.fail("the::nested-correlated", f"the() with n={n} solutions depending on a variable of the enclosing query: {st} {r!r}", {"n": n, "nested": True})
 # falsy solutions are solutions: the single solution 0 / "" must be returned by the()
 for dom, want in (([0], 0), ([""], ""), ([[]], [])):
     st, r = guarded(lambda: the(entity(let(type(want), dom))).evaluate())
